@@ -1,13 +1,13 @@
 package main
 
 import (
-	"go/token"
-	"strings"
-	"runtime/debug"
 	"flag"
 	"fmt"
+	"go/token"
 	"os"
+	"runtime/debug"
 	"sort"
+	"strings"
 )
 
 type propFunc func(c *Ctx) propInfo
